@@ -19,6 +19,11 @@ ForwardOK == IsCirc =>
 SeqOK == IsCirc =>
     \A p \in 1..Len(Rec.probes) : LET pr == Rec.probes[p] IN
         ("seq" \in DOMAIN pr) => \A j \in 1..Len(pr.ins) : Dec(pr.seq[j]) = Forward(Prog, Dec(pr.ins[j]))
+\* compose() leaves its argument an independent circuit: after the composed circuit is extended further, the
+\* argument (the second half of the program) still acts as before
+OtherOK == (IsCirc /\ Has("other")) =>
+    LET tail == SubSeq(Prog, Rec.other.h + 1, Len(Prog)) IN
+    \A j \in 1..Len(Rec.other.ins) : Dec(Rec.other.fwd[j]) = Forward(tail, Dec(Rec.other.ins[j]))
 \* rank of a state is untouched by unitary circuits
 RankOK == IsCirc =>
     \A p \in 1..Len(Rec.probes) : LET pr == Rec.probes[p] IN
